@@ -1,7 +1,352 @@
-(** C12 - placeholder obligations until PathsProofs lands. *)
-From Coq Require Import ZArith List.
-From V Require Import Base Perm PermProofs.
-Theorem C12_inverse_generator_undoes : forall (A : Type) (d : A) p (x : list A), Perm p -> length x = length p ->
-  apply_perm d (inverse_perm p) (apply_perm d p x) = x /\ apply_perm d p (apply_perm d (inverse_perm p) x) = x.
-Proof. exact @inverse_undoes. Qed.
-Print Assumptions C12_inverse_generator_undoes.
+(** C12 - Automatic path finding returns only valid paths, shortest within its BFS radius. Statements only: every proof is [exact] of a lemma proved elsewhere.
+    find_path_one (PathRun.v) is the model of cayleypy.find_path for graphs without a pre-trained model: inverse-closed graphs use MITM from the start state
+    and revert the path; directed graphs run MITM in the inverted graph and reverse the generator sequence. balls_ok: the cached ball is well formed.
+    (Statements are the lemmas' closed types as printed by Coq, hence the qualified names.) *)
+From V Require Import Base Tensor Graph GraphProofs GraphImpl Def Paths BfsStep PathsProofs Mitm MitmProofs PathRun MitmFind.
+
+(* any returned sequence replays from the start state to the central state (both branches); it is shortest and within twice the ball depth *)
+Theorem C12_find_path_valid :
+  forall (e : path_env) (U : state -> Prop),
+         closed state (acts (pe_G e)) U ->
+         closed state (acts (pe_Ginv e)) U ->
+         (forall a b : state, U a -> U b -> hashf (pe_G e) a = hashf (pe_G e) b -> a = b) ->
+         (forall s : state, hashf (pe_Ginv e) s = hashf (pe_G e) s) ->
+         length (acts (pe_Ginv e)) = length (acts (pe_G e)) ->
+         (forall (i : nat) (g gi : state -> state) (x : state),
+          List.nth_error (acts (pe_G e)) i = Some g ->
+          List.nth_error (acts (pe_Ginv e)) i = Some gi -> U x -> g (gi x) = x /\ gi (g x) = x) ->
+         (is_identity (pe_G e) = true ->
+          forall a : state, U a -> unword (pe_G e) (hashf (pe_G e) a) = a) ->
+         (is_identity (pe_Ginv e) = true ->
+          forall a : state, U a -> unword (pe_Ginv e) (hashf (pe_Ginv e) a) = a) ->
+         (inv_closed (pe_Ginv e) = true -> symmetric_on state (acts (pe_Ginv e)) U) ->
+         central (pe_Ginv e) = central (pe_G e) ->
+         U (central (pe_G e)) ->
+         (forall (q : state) (k : nat),
+          BinInt.Z.lt (BinInt.Z.of_nat (length (layer state st_eq_dec (acts (pe_G e)) (q :: nil) k)))
+            (BinNums.Zpos
+               (BinNums.xO
+                  (BinNums.xO
+                     (BinNums.xO
+                        (BinNums.xO
+                           (BinNums.xO
+                              (BinNums.xO
+                                 (BinNums.xO
+                                    (BinNums.xO
+                                       (BinNums.xO
+                                          (BinNums.xO
+                                             (BinNums.xO
+                                                (BinNums.xO
+                                                   (BinNums.xI
+                                                      (BinNums.xO
+                                                         (BinNums.xO
+                                                            (BinNums.xO
+                                                               (BinNums.xI
+                                                                  (BinNums.xO
+                                                                     (BinNums.xI
+                                                                        (BinNums.xO
+                                                                        (BinNums.xO
+                                                                        (BinNums.xI
+                                                                        (BinNums.xO
+                                                                        (BinNums.xI
+                                                                        (BinNums.xO
+                                                                        (BinNums.xO
+                                                                        (BinNums.xI
+                                                                        (BinNums.xO
+                                                                        (BinNums.xI
+                                                                        (BinNums.xO
+                                                                        (BinNums.xI
+                                                                        (BinNums.xI
+                                                                        (BinNums.xO
+                                                                        (BinNums.xO
+                                                                        (BinNums.xO
+                                                                        (BinNums.xI
+                                                                        (BinNums.xO
+                                                                        (BinNums.xI
+                                                                        (BinNums.xI BinNums.xH))))))))))))))))))))))))))))))))))))))))) ->
+         (forall (q : state) (k : nat),
+          BinInt.Z.lt
+            (BinInt.Z.of_nat (length (layer state st_eq_dec (acts (pe_Ginv e)) (q :: nil) k)))
+            (BinNums.Zpos
+               (BinNums.xO
+                  (BinNums.xO
+                     (BinNums.xO
+                        (BinNums.xO
+                           (BinNums.xO
+                              (BinNums.xO
+                                 (BinNums.xO
+                                    (BinNums.xO
+                                       (BinNums.xO
+                                          (BinNums.xO
+                                             (BinNums.xO
+                                                (BinNums.xO
+                                                   (BinNums.xI
+                                                      (BinNums.xO
+                                                         (BinNums.xO
+                                                            (BinNums.xO
+                                                               (BinNums.xI
+                                                                  (BinNums.xO
+                                                                     (BinNums.xI
+                                                                        (BinNums.xO
+                                                                        (BinNums.xO
+                                                                        (BinNums.xI
+                                                                        (BinNums.xO
+                                                                        (BinNums.xI
+                                                                        (BinNums.xO
+                                                                        (BinNums.xO
+                                                                        (BinNums.xI
+                                                                        (BinNums.xO
+                                                                        (BinNums.xI
+                                                                        (BinNums.xO
+                                                                        (BinNums.xI
+                                                                        (BinNums.xI
+                                                                        (BinNums.xO
+                                                                        (BinNums.xO
+                                                                        (BinNums.xO
+                                                                        (BinNums.xI
+                                                                        (BinNums.xO
+                                                                        (BinNums.xI
+                                                                        (BinNums.xI BinNums.xH))))))))))))))))))))))))))))))))))))))))) ->
+         (forall m : list nat, pe_invmap e = Some m -> invmap_ok e U m) ->
+         forall (lhf : list (list BinNums.Z)) (nsf : nat) (lhi : list (list BinNums.Z)) 
+           (nsi : nat) (s : state) (p : list nat),
+         balls_ok e lhf nsf lhi nsi ->
+         U s ->
+         find_path_one e (lhf, nsf) (lhi, nsi) s = Ok (Some p) ->
+         run state (acts (pe_G e)) s p = Some (central (pe_G e)) /\
+         dist_is state (acts (pe_G e)) (s :: nil) (central (pe_G e)) (length p) /\
+         length p <= 2 * ball_depth e nsf nsi.
+Proof. exact @find_path_valid. Qed.
+Print Assumptions C12_find_path_valid.
+
+(* distance within twice the depth of the internal BFS: a path of exactly that length is returned *)
+Theorem C12_find_path_shortest :
+  forall (e : path_env) (U : state -> Prop),
+         closed state (acts (pe_G e)) U ->
+         closed state (acts (pe_Ginv e)) U ->
+         (forall a b : state, U a -> U b -> hashf (pe_G e) a = hashf (pe_G e) b -> a = b) ->
+         (forall s : state, hashf (pe_Ginv e) s = hashf (pe_G e) s) ->
+         length (acts (pe_Ginv e)) = length (acts (pe_G e)) ->
+         (forall (i : nat) (g gi : state -> state) (x : state),
+          List.nth_error (acts (pe_G e)) i = Some g ->
+          List.nth_error (acts (pe_Ginv e)) i = Some gi -> U x -> g (gi x) = x /\ gi (g x) = x) ->
+         (is_identity (pe_G e) = true ->
+          forall a : state, U a -> unword (pe_G e) (hashf (pe_G e) a) = a) ->
+         (is_identity (pe_Ginv e) = true ->
+          forall a : state, U a -> unword (pe_Ginv e) (hashf (pe_Ginv e) a) = a) ->
+         (inv_closed (pe_Ginv e) = true -> symmetric_on state (acts (pe_Ginv e)) U) ->
+         central (pe_Ginv e) = central (pe_G e) ->
+         U (central (pe_G e)) ->
+         (forall (q : state) (k : nat),
+          BinInt.Z.lt (BinInt.Z.of_nat (length (layer state st_eq_dec (acts (pe_G e)) (q :: nil) k)))
+            (BinNums.Zpos
+               (BinNums.xO
+                  (BinNums.xO
+                     (BinNums.xO
+                        (BinNums.xO
+                           (BinNums.xO
+                              (BinNums.xO
+                                 (BinNums.xO
+                                    (BinNums.xO
+                                       (BinNums.xO
+                                          (BinNums.xO
+                                             (BinNums.xO
+                                                (BinNums.xO
+                                                   (BinNums.xI
+                                                      (BinNums.xO
+                                                         (BinNums.xO
+                                                            (BinNums.xO
+                                                               (BinNums.xI
+                                                                  (BinNums.xO
+                                                                     (BinNums.xI
+                                                                        (BinNums.xO
+                                                                        (BinNums.xO
+                                                                        (BinNums.xI
+                                                                        (BinNums.xO
+                                                                        (BinNums.xI
+                                                                        (BinNums.xO
+                                                                        (BinNums.xO
+                                                                        (BinNums.xI
+                                                                        (BinNums.xO
+                                                                        (BinNums.xI
+                                                                        (BinNums.xO
+                                                                        (BinNums.xI
+                                                                        (BinNums.xI
+                                                                        (BinNums.xO
+                                                                        (BinNums.xO
+                                                                        (BinNums.xO
+                                                                        (BinNums.xI
+                                                                        (BinNums.xO
+                                                                        (BinNums.xI
+                                                                        (BinNums.xI BinNums.xH))))))))))))))))))))))))))))))))))))))))) ->
+         (forall (q : state) (k : nat),
+          BinInt.Z.lt
+            (BinInt.Z.of_nat (length (layer state st_eq_dec (acts (pe_Ginv e)) (q :: nil) k)))
+            (BinNums.Zpos
+               (BinNums.xO
+                  (BinNums.xO
+                     (BinNums.xO
+                        (BinNums.xO
+                           (BinNums.xO
+                              (BinNums.xO
+                                 (BinNums.xO
+                                    (BinNums.xO
+                                       (BinNums.xO
+                                          (BinNums.xO
+                                             (BinNums.xO
+                                                (BinNums.xO
+                                                   (BinNums.xI
+                                                      (BinNums.xO
+                                                         (BinNums.xO
+                                                            (BinNums.xO
+                                                               (BinNums.xI
+                                                                  (BinNums.xO
+                                                                     (BinNums.xI
+                                                                        (BinNums.xO
+                                                                        (BinNums.xO
+                                                                        (BinNums.xI
+                                                                        (BinNums.xO
+                                                                        (BinNums.xI
+                                                                        (BinNums.xO
+                                                                        (BinNums.xO
+                                                                        (BinNums.xI
+                                                                        (BinNums.xO
+                                                                        (BinNums.xI
+                                                                        (BinNums.xO
+                                                                        (BinNums.xI
+                                                                        (BinNums.xI
+                                                                        (BinNums.xO
+                                                                        (BinNums.xO
+                                                                        (BinNums.xO
+                                                                        (BinNums.xI
+                                                                        (BinNums.xO
+                                                                        (BinNums.xI
+                                                                        (BinNums.xI BinNums.xH))))))))))))))))))))))))))))))))))))))))) ->
+         (forall m : list nat, pe_invmap e = Some m -> invmap_ok e U m) ->
+         forall (lhf : list (list BinNums.Z)) (nsf : nat) (lhi : list (list BinNums.Z)) 
+           (nsi : nat) (s : state) (d : nat),
+         balls_ok e lhf nsf lhi nsi ->
+         U s ->
+         (inv_closed (pe_G e) = true -> exists m : list nat, pe_invmap e = Some m) ->
+         dist_is state (acts (pe_G e)) (s :: nil) (central (pe_G e)) d ->
+         d <= 2 * ball_depth e nsf nsi ->
+         exists p : list nat,
+           find_path_one e (lhf, nsf) (lhi, nsi) s = Ok (Some p) /\
+           length p = d /\ run state (acts (pe_G e)) s p = Some (central (pe_G e)).
+Proof. exact @find_path_shortest. Qed.
+Print Assumptions C12_find_path_shortest.
+
+(* nothing is returned only when no path of that length exists *)
+Theorem C12_find_path_none :
+  forall (e : path_env) (U : state -> Prop),
+         closed state (acts (pe_G e)) U ->
+         closed state (acts (pe_Ginv e)) U ->
+         (forall a b : state, U a -> U b -> hashf (pe_G e) a = hashf (pe_G e) b -> a = b) ->
+         (forall s : state, hashf (pe_Ginv e) s = hashf (pe_G e) s) ->
+         length (acts (pe_Ginv e)) = length (acts (pe_G e)) ->
+         (forall (i : nat) (g gi : state -> state) (x : state),
+          List.nth_error (acts (pe_G e)) i = Some g ->
+          List.nth_error (acts (pe_Ginv e)) i = Some gi -> U x -> g (gi x) = x /\ gi (g x) = x) ->
+         (is_identity (pe_G e) = true ->
+          forall a : state, U a -> unword (pe_G e) (hashf (pe_G e) a) = a) ->
+         (is_identity (pe_Ginv e) = true ->
+          forall a : state, U a -> unword (pe_Ginv e) (hashf (pe_Ginv e) a) = a) ->
+         (inv_closed (pe_Ginv e) = true -> symmetric_on state (acts (pe_Ginv e)) U) ->
+         central (pe_Ginv e) = central (pe_G e) ->
+         U (central (pe_G e)) ->
+         (forall (q : state) (k : nat),
+          BinInt.Z.lt (BinInt.Z.of_nat (length (layer state st_eq_dec (acts (pe_G e)) (q :: nil) k)))
+            (BinNums.Zpos
+               (BinNums.xO
+                  (BinNums.xO
+                     (BinNums.xO
+                        (BinNums.xO
+                           (BinNums.xO
+                              (BinNums.xO
+                                 (BinNums.xO
+                                    (BinNums.xO
+                                       (BinNums.xO
+                                          (BinNums.xO
+                                             (BinNums.xO
+                                                (BinNums.xO
+                                                   (BinNums.xI
+                                                      (BinNums.xO
+                                                         (BinNums.xO
+                                                            (BinNums.xO
+                                                               (BinNums.xI
+                                                                  (BinNums.xO
+                                                                     (BinNums.xI
+                                                                        (BinNums.xO
+                                                                        (BinNums.xO
+                                                                        (BinNums.xI
+                                                                        (BinNums.xO
+                                                                        (BinNums.xI
+                                                                        (BinNums.xO
+                                                                        (BinNums.xO
+                                                                        (BinNums.xI
+                                                                        (BinNums.xO
+                                                                        (BinNums.xI
+                                                                        (BinNums.xO
+                                                                        (BinNums.xI
+                                                                        (BinNums.xI
+                                                                        (BinNums.xO
+                                                                        (BinNums.xO
+                                                                        (BinNums.xO
+                                                                        (BinNums.xI
+                                                                        (BinNums.xO
+                                                                        (BinNums.xI
+                                                                        (BinNums.xI BinNums.xH))))))))))))))))))))))))))))))))))))))))) ->
+         (forall (q : state) (k : nat),
+          BinInt.Z.lt
+            (BinInt.Z.of_nat (length (layer state st_eq_dec (acts (pe_Ginv e)) (q :: nil) k)))
+            (BinNums.Zpos
+               (BinNums.xO
+                  (BinNums.xO
+                     (BinNums.xO
+                        (BinNums.xO
+                           (BinNums.xO
+                              (BinNums.xO
+                                 (BinNums.xO
+                                    (BinNums.xO
+                                       (BinNums.xO
+                                          (BinNums.xO
+                                             (BinNums.xO
+                                                (BinNums.xO
+                                                   (BinNums.xI
+                                                      (BinNums.xO
+                                                         (BinNums.xO
+                                                            (BinNums.xO
+                                                               (BinNums.xI
+                                                                  (BinNums.xO
+                                                                     (BinNums.xI
+                                                                        (BinNums.xO
+                                                                        (BinNums.xO
+                                                                        (BinNums.xI
+                                                                        (BinNums.xO
+                                                                        (BinNums.xI
+                                                                        (BinNums.xO
+                                                                        (BinNums.xO
+                                                                        (BinNums.xI
+                                                                        (BinNums.xO
+                                                                        (BinNums.xI
+                                                                        (BinNums.xO
+                                                                        (BinNums.xI
+                                                                        (BinNums.xI
+                                                                        (BinNums.xO
+                                                                        (BinNums.xO
+                                                                        (BinNums.xO
+                                                                        (BinNums.xI
+                                                                        (BinNums.xO
+                                                                        (BinNums.xI
+                                                                        (BinNums.xI BinNums.xH))))))))))))))))))))))))))))))))))))))))) ->
+         (forall m : list nat, pe_invmap e = Some m -> invmap_ok e U m) ->
+         forall (lhf : list (list BinNums.Z)) (nsf : nat) (lhi : list (list BinNums.Z)) 
+           (nsi : nat) (s : state),
+         balls_ok e lhf nsf lhi nsi ->
+         U s ->
+         (inv_closed (pe_G e) = true -> exists m : list nat, pe_invmap e = Some m) ->
+         (forall d : nat,
+          dist_is state (acts (pe_G e)) (s :: nil) (central (pe_G e)) d ->
+          2 * ball_depth e nsf nsi < d) -> find_path_one e (lhf, nsf) (lhi, nsi) s = Ok None.
+Proof. exact @find_path_none. Qed.
+Print Assumptions C12_find_path_none.
